@@ -18,6 +18,7 @@ construct out of the main ("behind the finding") campaign while the probes fail.
 import ast
 import itertools
 import os
+import re
 import symtable
 import warnings
 
@@ -241,13 +242,17 @@ def regen_checks(src):
             cmp("ExpressionGenerator-sibling %r" % sib_src, t1, sib_src, "eval")
             cmp("ExpressionGenerator-after-sibling %r" % sib_src, t2, None, "eval")
     # (b) FunctionDecl.get_argument_expressions: positional and keyword-only defaults
-    decl = "def f(a=%s, b=1, *r, k=%s, j=2, **w):pass" % (src, src)
-    try:
-        parts = mast.FunctionDecl(decl, **kw).get_argument_expressions()
-    except Exception as e:  # noqa: BLE001
-        problems.append(("FunctionDecl", "regen-raised:" + type(e).__name__, "%s: %s" % (type(e).__name__, e)))
-    else:
-        cmp("FunctionDecl", "def f(%s):pass" % ",".join(parts), decl, "exec")
+    # (keyword-only parameters with and without defaults in every order: the defaults stay with their parameters)
+    for decl in ("def f(a=%s, b=1, *r, k=%s, j=2, **w):pass" % (src, src),
+                 "def f(x, *r, k=%s, m, j=2, n, **w):pass" % src,
+                 "def f(*r, m, k=%s, n):pass" % src,  # (a bare * instead of *r: known finding, see check_signatures)
+                 "def f(x, y=0, *r, m, n, k=%s):pass" % src):
+        try:
+            parts = mast.FunctionDecl(decl, **kw).get_argument_expressions()
+        except Exception as e:  # noqa: BLE001
+            problems.append(("FunctionDecl", "regen-raised:" + type(e).__name__, "%s: %s" % (type(e).__name__, e)))
+        else:
+            cmp("FunctionDecl", "def f(%s):pass" % ",".join(parts), decl, "exec")
     # (c) ArgumentList (filter calls): positional and keyword argument of a call
     call = "fecho(%s, kw=%s)" % (src, src)
     try:
@@ -1241,9 +1246,96 @@ def shard_any(task):
 
 
 # ---------------------------------------------------------------------------------------------------------
+# ---- signatures written in tags: <%def name="f(...)">, nested defs, body args of calls ------------------------------------
+KEY_BARE_STAR = "C19-bare-star-dropped"
+SIGNATURES = [
+    # (signature, [call argument texts])
+    ("a, b=2", ["1", "1, 3", "b=5, a=4", "", "1, 2, 3"]),
+    ("a, *r, k=1, m, j=2", ["0, 9, m=5", "0, m=5, k=7", "0", "0, 1, 2, m=3, j=4"]),
+    ("x, y=0, *r, m, n=3, **w", ["1, m=2", "1, 2, 3, m=4, z=5", "1, n=2"]),
+    ("*r, a=1, b, c=3", ["b=7", "1, 2, b=7, c=8", "a=0"]),
+    ("a, /, b", ["1, 2", "1, b=2", "a=1, b=2"]),
+    ("a, b=5, /, c=6, *r, k", ["1, k=2", "1, 2, 3, 4, k=5", "1, b=2, k=3"]),
+    ("a, /", ["1", "a=1"]),
+    ("a, *, m", ["1, m=2", "1, 2"]),
+    ("*, m, k=1", ["m=2", "2"]),
+    ("*, k=1, m", ["m=2", "k=3, m=4"]),
+    ("a, b=2, *, c, d=4, **w", ["1, c=3", "1, 2, 3", "1, c=3, e=5"]),
+]
+
+
+def _sig_names(sig):
+    fn = ast.parse("def f(%s): pass" % sig).body[0]
+    a = fn.args
+    out = [x.arg for x in a.posonlyargs + a.args]
+    if a.vararg:
+        out.append(a.vararg.arg)
+    out += [x.arg for x in a.kwonlyargs]
+    if a.kwarg:
+        out.append(a.kwarg.arg)
+    return out
+
+
+def check_signatures(ev, fails):
+    """a def written in a tag binds its arguments as the Python function with that signature does (same values or TypeError)"""
+    from mako.template import Template
+
+    k = 0
+    for sig, calls in SIGNATURES:
+        names = _sig_names(sig)
+        show = "|".join("%s=${repr(sorted(%s.items()) if isinstance(%s, dict) else %s)}" % (n, n, n, n) for n in names)
+        ns = {}
+        exec("def f(%s):\n    return '|'.join('%%s=%%r' %% (n, sorted(v.items()) if isinstance(v, dict) else v) for n, v in (%s))"
+             % (sig, ", ".join("(%r, %s)" % (n, n) for n in names) + ","), ns)
+        for call in calls:
+            try:
+                want = ("ok", eval("f(%s)" % call, ns))
+            except TypeError:
+                want = ("TypeError",)
+            sites = {
+                "top-level def": '<%%def name="f(%s)">%s</%%def>${f(%s)}' % (sig, show, call),
+                "nested def": '<%%def name="o()"><%%def name="f(%s)">%s</%%def>${f(%s)}</%%def>${o()}' % (sig, show, call),
+                "call body args": '<%%def name="w()">${caller.body(%s)}</%%def><%%call expr="w()" args="%s">%s</%%call>' % (call, sig, show),
+            }
+            for site, src in sorted(sites.items()):
+                k += 1
+                try:
+                    got = ("ok", Template(src, uri="/c19sig_%d.html" % k).render_unicode())
+                except TypeError:
+                    got = ("TypeError",)
+                except Exception as e:  # noqa: BLE001 - the type is the observation
+                    got = (type(e).__name__, str(e)[:100])
+                case = {"part": "signature", "sig": sig, "call": call, "site": site}
+                if got != want:
+                    # the known finding is exactly "the bare * is removed": what the signature without it would do
+                    bare = False
+                    if re.search(r"(^|,)\s*\*\s*,", sig):
+                        sig2 = re.sub(r"(^|,)\s*\*\s*,", r"\1", sig)
+                        ns2 = {}
+                        try:
+                            exec("def f(%s):\n    return '|'.join('%%s=%%r' %% (n, sorted(v.items()) if isinstance(v, dict) else v) for n, v in (%s))"
+                                 % (sig2, ", ".join("(%r, %s)" % (n, n) for n in names) + ","), ns2)
+                            try:
+                                alt = ("ok", eval("f(%s)" % call, ns2))
+                            except TypeError:
+                                alt = ("TypeError",)
+                            bare = got == alt
+                        except SyntaxError:
+                            bare = got[0] == "SyntaxError"
+                    key = KEY_BARE_STAR if bare else "signature-binding"
+                    f = Failure(case, "%s with signature (%s) called as f(%s): the Python function gives %r, the template %r\n%s"
+                                % (site, sig, call, want, got, src), key)
+                    fails.setdefault((key, sig) if not bare else key, f)
+                ev.case(key=["signature", sig, call, site], nontrivial="*" in sig or "/" in sig, labels=("signature:" + site,))
+
+
 def run(ctx):
     core.setup_repo()
     warnings.simplefilter("ignore")
+    sfails = {}
+    check_signatures(ctx.ev, sfails)
+    for f_ in sfails.values():
+        ctx.fail(f_)
     part = getattr(ctx, "part", None)
     tasks = []
     # the probe lists are cheap: run them all first so that every campaign knows which findings are open
@@ -1268,6 +1360,8 @@ def run(ctx):
 
 
 def classify(f):
+    if f.key == KEY_BARE_STAR:
+        return KEY_BARE_STAR
     return f.key if f.key in FINDINGS else None
 
 
@@ -1282,6 +1376,10 @@ def replay(case):
             check_block(case["src"], case["env"], case["outs"], finding=case.get("finding"))
         elif case["part"] == "margin":
             check_margin(case, finding=case.get("finding"))
+        elif case["part"] == "signature":
+            fails = {}
+            check_signatures(core.Evidence(), fails)
+            return next((f for f in fails.values() if f.case == case), None)
     except Failure as f:
         return f
     return None
